@@ -5,6 +5,9 @@ Tie: generated filter ASTs are printed to the concrete syntax, compiled with the
 compile_filter (node tree compared with the AST), evaluated against real LLUDP / EQ / HTTP log
 entries with both short_circuit values and diffed against the extracted model; logger operation
 sequences (maxlen 1..3) are run on the real FilteringMessageLogger and on the extracted model.
+Export/import and freeze/thaw: Log/Export.v (Message.to_dict/from_dict, entry to_dict/from_dict, export/import, freeze state
+machine) over C12's LLSD notation model; the extracted functions are compared with the real classes on generated messages,
+malformed dicts, values, entry lists and freeze scripts (suites correspond_x_*), next to the implementation-level oracle.
 """
 import itertools
 import json
@@ -51,12 +54,40 @@ TRUSTED = [
     "back (through the model's own rounding) as the same float, so C18_parse_print holds for floats by construction of the printer; "
     "that this is what repr(float) prints and that b64_of_dec is float() is checked by correspondence only (generated ASTs, 400+ "
     "random decimal literals per quick run including halfway cases)",
-    "export/import and freeze/thaw clause: implementation-level oracle only (pickle, gzip, repr/literal_eval, LLSD notation, "
-    "Message.to_dict/from_dict are not modelled); the logged messages are decoded from wire bytes by the real "
-    "UDPMessageSerializer/UDPMessageDeserializer, which are used as they are (their own correctness is C01/C02), and the "
-    "re-serialised datagram is compared byte for byte",
+    "export/import and freeze/thaw clause, modelled by hand (Log/Export.v) and proved (Log/ExportProofs.v, Props/C18.v "
+    "C18_dict_roundtrip .. C18_frozen_export): Message.to_dict(extended)/from_dict, Block(**kwargs)/finalize as far as from_dict uses "
+    "them, the exact-type dispatch of HippoLLSDNotationFormatter._generate (type_map + the iter() fallback for bytearray) as `tree_of`, "
+    "the Python objects the notation parser builds as `pv_of`, AbstractMessageLogEntry.__init__'s meta dict for region = session = None, "
+    "to_dict / apply_dict (str(UUID) / UUID(str) of the three UUID-valued meta keys, only the 8-4-4-4-12 spelling), the region_name / "
+    "summary properties, LLUDPMessageLogEntry / EQMessageLogEntry to_dict / from_dict, export_log_entries / import_log_entries, "
+    "LLUDPMessageLogEntry.freeze / message / name / method / seq (live message = shared mutable object in an explicit heap).  The "
+    "notation formatter and parser themselves are property C12's model (Llsd/LlsdNotation.v, LlsdNotationParse.v) and its proved "
+    "round trip (parse_not_fmt = C12_not_roundtrip) is reused under exactly its hypotheses (wfn + oracles_ok of the exported tree, "
+    "the two lexical hypotheses on repr(float) and the date string)",
+    "export/import, oracles (explicit premises of the theorems, never assumed globally): repr / ast.literal_eval and gzip are "
+    "assumed inverse on the ONE exported value, pickle.loads(pickle.dumps(x)) == x and a non-empty pickle on the objects actually "
+    "pickled, repr(float) / float() and Message.to_summary as functions.  All of them are exercised unabstracted by the suite "
+    "'entry export / import' (the real import_log_entries(export_log_entries(list)) against norm_entry) and 'freeze / thaw machine'",
+    "export/import, what is proved to be LOST (C18_dict_classes_lost_refuted, C18_value_fixed_iff_plain): the class of Vector2/3/4 / "
+    "Quaternion (-> list of floats), JankStringyBytes / RawBytes (-> bytes), bytearray (-> list of ints), tuple (-> list), "
+    "hippolyzer UUID (-> uuid.UUID), bytearray extra (-> bytes), tuple acks (-> list); everything else of to_dict(extended=True) "
+    "is kept (block lists incl. present-but-empty ones, order, packet id, meta, flags, direction).  The impl-level oracle of this "
+    "clause ('freeze/thaw + export/import') compares modulo exactly these classes plus the re-serialised datagram; on the live code "
+    "Message.__eq__ and filters such as `Foo.Bar.V == (1.0, 2.0, 3.0)` / `Foo.Bar.J == 'abc'` DO distinguish an imported entry "
+    "from the logged one (measured every run, evidence notes; reported, not a verdict)",
+    "export/import, freeze(): the model carries one flag, repickle = 'freeze() pickles the message it has just resolved'; the code "
+    "as it stands pickles self._message (None once frozen), so a second freeze() loses the message (C18_freeze_twice_refuted; proposed "
+    "repair .proposed/C18-freeze-twice.diff, with which C18_freeze_idempotent applies); the harness probes the live code and drives "
+    "the model with the value found",
+    "export/import, not modelled: HTTPMessageLogEntry (mitmproxy flow state: impl-level oracle only), datetime values inside "
+    "event-queue events (no generated case; the model has the constructor), lazy parsing of the logged message (to_dict calls "
+    "ensure_parsed first; C02) - lazily decoded messages are part of every suite -, Message.offset / body_boundaries / queued / "
+    "finalized / sender (not read by to_dict), weak references to region and session, UUID spellings other than str(UUID), "
+    "keyword names Block() cannot carry (ending in '_' or 'fill_missing': from_dict refuses them in the model, wf_msg excludes them)",
+    "export/import, trusted glue: the typed text encoding of Python objects by exact type (y_enc / msg_enc / entry_enc in this "
+    "file) and its printer / reader in coq/ocaml/c18_driver.ml; the pickle of the driver is an index into the case's message versions",
     "compile_filter is memoised by the harness during logger sequences (filter nodes are immutable)",
-    "nothing is unproved or partial: C18_never_error quantifies over well-formed filters (`safe`: every expected value is a literal, "
+    "filter / view clauses, nothing is unproved or partial: C18_never_error quantifies over well-formed filters (`safe`: every expected value is a literal, "
     "a single-level Meta reference or an enum reference that resolves - an ill-formed reference raises by design when it is resolved, "
     "C18_ill_formed_raises) and C18_view_invariant needs no no-raise hypothesis; the seven defects found earlier "
     "(ee20324, 7c352a5, 2a50dc8, d24ac43, 85c28f0 and before them 70311e8, e2d67fe) are fixed in /repo and kept as corpus regressions",
@@ -2005,8 +2036,1065 @@ def correspond_roundtrip(ctx):
     return res
 
 
+# --------------------------------------------------------------------------
+# export / import and freeze / thaw: the extracted model (Log/Export.v) against the real code
+#
+# One typed text encoding is used for Python values, messages and entries on both sides (grammar in coq/ocaml/c18_driver.ml):
+# the harness encodes the REAL objects by exact type (the way the notation formatter dispatches), the driver prints the MODEL's
+# answers in the same encoding, and the two strings are compared.  A case is stored as its encoding, so it can be replayed.
+
+def _hx(b):
+    return bytes(b).hex() if len(b) else "-"
+
+
+def _f64(x):
+    import struct
+    return struct.pack(">d", x).hex()
+
+
+class _Tables:
+    """repr(float) renderings met while encoding a case (the model takes repr / float() as tables)"""
+
+    def __init__(self):
+        self.reals = {}
+
+    def real(self, x):
+        k = _f64(x)
+        self.reals[k] = repr(x).encode()
+        return k
+
+    def text(self):
+        return "; " + " ".join("%s %s" % (k, _hx(v)) for k, v in sorted(self.reals.items())) + " ;"
+
+
+def y_enc(v, tb):
+    """typed encoding of a real Python value, by exact type; Unencodable for anything the model's value type lacks"""
+    import uuid
+    from hippolyzer.lib.base import datatypes as dt
+    t = type(v)
+    if v is None:
+        return "N"
+    if t is bool:
+        return "T" if v else "F"
+    if t is int:
+        return "I %d" % v
+    if t is float:
+        if v != v:
+            raise Unencodable("nan")
+        return "R " + tb.real(v)
+    if t is str:
+        try:
+            return "S " + _hx(v.encode("utf8"))
+        except UnicodeEncodeError:
+            raise Unencodable("surrogate")
+    if t is bytes:
+        return "B p " + _hx(v)
+    if t is dt.JankStringyBytes:
+        return "B j " + _hx(v)
+    if t is dt.RawBytes:
+        return "B r " + _hx(v)
+    if t is bytearray:
+        return "B a " + _hx(v)
+    if t is dt.UUID:
+        return "G h " + v.bytes.hex()
+    if t is uuid.UUID:
+        return "G s " + v.bytes.hex()
+    for cls, k in ((dt.Vector2, "2"), (dt.Vector3, "3"), (dt.Vector4, "4"), (dt.Quaternion, "q")):
+        if t is cls:
+            xs = list(v.data())
+            if not all(type(x) is float and x == x for x in xs):
+                raise Unencodable("coord")
+            return "C %s %d %s" % (k, len(xs), " ".join(tb.real(x) for x in xs))
+    if t is list or t is tuple:
+        return " ".join(["L", "l" if t is list else "t", str(len(v))] + [y_enc(x, tb) for x in v])
+    if t is dict:
+        out = ["M", str(len(v))]
+        for k, x in v.items():
+            if type(k) is not str:
+                raise Unencodable("key")
+            out.append(_hx(k.encode("utf8")))
+            out.append(y_enc(x, tb))
+        return " ".join(out)
+    raise Unencodable(t.__name__)
+
+
+def msg_enc(m, tb):
+    """typed encoding of a real Message (the slots to_dict reads)"""
+    from hippolyzer.lib.base.message.message import Message
+    if type(m) is not Message:
+        raise Unencodable("not a Message")
+    out = []
+    if type(m.name) is not str:
+        raise Unencodable("name")
+    out.append(_hx(m.name.encode("utf8")))
+    blocks = m.blocks
+    out.append(str(len(blocks)))
+    for bn, bl in blocks.items():
+        if type(bn) is not str:
+            raise Unencodable("block name")
+        out.append(_hx(bn.encode("utf8")))
+        out.append(str(len(bl)))
+        for b in bl:
+            out.append(str(len(b.vars)))
+            for k, x in b.vars.items():
+                if type(k) is not str:
+                    raise Unencodable("var name")
+                out.append(_hx(k.encode("utf8")))
+                out.append(y_enc(x, tb))
+    if m.packet_id is None:
+        out.append("-")
+    elif type(m.packet_id) is int:
+        out.append(str(m.packet_id))
+    else:
+        raise Unencodable("packet_id")
+    if type(m.meta) is not dict or type(m.dropped) is not bool or type(m.synthetic) is not bool:
+        raise Unencodable("meta/dropped/synthetic")
+    out.append(y_enc(m.meta, tb))
+    out.append("1" if m.dropped else "0")
+    out.append("1" if m.synthetic else "0")
+    if m.direction.name not in ("IN", "OUT"):
+        raise Unencodable("direction")
+    out.append("I" if m.direction.name == "IN" else "O")
+    if not isinstance(m.send_flags, int) or type(m.send_flags) is bool:
+        raise Unencodable("send_flags")
+    out.append(str(int(m.send_flags)))
+    ex = y_enc(m.raw_extra, tb).split(" ")
+    if ex[0] != "B":
+        raise Unencodable("extra")
+    out += ex[1:]
+    ak = y_enc(m.acks, tb).split(" ", 1)
+    if ak[0] != "L":
+        raise Unencodable("acks")
+    out.append(ak[1])
+    return " ".join(out)
+
+
+class _Tok:
+    def __init__(self, text):
+        self.t = text.split()
+        self.i = 0
+
+    def next(self):
+        self.i += 1
+        return self.t[self.i - 1]
+
+    def hex(self):
+        h = self.next()
+        return b"" if h == "-" else bytes.fromhex(h)
+
+
+def y_dec(tk):
+    """typed encoding -> real Python value"""
+    import struct
+    import uuid
+    from hippolyzer.lib.base import datatypes as dt
+    c = tk.next()
+    if c == "N":
+        return None
+    if c in "TF":
+        return c == "T"
+    if c == "I":
+        return int(tk.next())
+    if c == "R":
+        return struct.unpack(">d", bytes.fromhex(tk.next()))[0]
+    if c == "S":
+        return tk.hex().decode("utf8")
+    if c == "B":
+        k = tk.next()
+        return {"p": bytes, "j": dt.JankStringyBytes, "r": dt.RawBytes, "a": bytearray}[k](tk.hex())
+    if c == "G":
+        k = tk.next()
+        return (dt.UUID if k == "h" else uuid.UUID)(bytes=tk.hex())
+    if c == "C":
+        k = tk.next()
+        n = int(tk.next())
+        xs = [struct.unpack(">d", bytes.fromhex(tk.next()))[0] for _ in range(n)]
+        return {"2": dt.Vector2, "3": dt.Vector3, "4": dt.Vector4, "q": dt.Quaternion}[k](*xs)
+    if c == "L":
+        k = tk.next()
+        n = int(tk.next())
+        xs = [y_dec(tk) for _ in range(n)]
+        return xs if k == "l" else tuple(xs)
+    if c == "M":
+        n = int(tk.next())
+        d = {}
+        for _ in range(n):
+            k = tk.hex().decode("utf8")
+            d[k] = y_dec(tk)
+        return d
+    raise ValueError("y_dec " + c)
+
+
+def msg_dec(tk):
+    """typed encoding -> real Message, built the way the deserializer / an addon builds one"""
+    from hippolyzer.lib.base.message.message import Block, Message
+    m = Message(tk.hex().decode("utf8"))
+    for _ in range(int(tk.next())):
+        bn = tk.hex().decode("utf8")
+        m.create_block_list(bn)
+        for _ in range(int(tk.next())):
+            b = Block(bn)
+            for _ in range(int(tk.next())):
+                k = tk.hex().decode("utf8")
+                b.vars[k] = y_dec(tk)
+            b.message_name = m.name
+            m.blocks[bn].append(b)
+    p = tk.next()
+    m.packet_id = None if p == "-" else int(p)
+    m.meta = y_dec(tk)
+    m.dropped = tk.next() == "1"
+    m.synthetic = tk.next() == "1"
+    from hippolyzer.lib.base.network.transport import Direction
+    m.direction = Direction.IN if tk.next() == "I" else Direction.OUT
+    m.send_flags = int(tk.next())
+    k = tk.next()
+    from hippolyzer.lib.base import datatypes as dt
+    m.raw_extra = {"p": bytes, "j": dt.JankStringyBytes, "r": dt.RawBytes, "a": bytearray}[k](tk.hex())
+    m.offset = len(m.raw_extra)
+    k = tk.next()
+    n = int(tk.next())
+    xs = [y_dec(tk) for _ in range(n)]
+    m.acks = xs if k == "l" else tuple(xs)
+    return m
+
+
+def x_message(spec):
+    """spec -> real Message: {"wire": hex, "lazy": bool} is decoded by the real deserializer, {"msg": encoding} is built"""
+    if "wire" in spec:
+        im = wire_impl()
+        return (im.lazy if spec.get("lazy") else im.eager).deserialize(bytes.fromhex(spec["wire"]))
+    return msg_dec(_Tok(spec["msg"]))
+
+
+def _try(fn):
+    try:
+        return fn()
+    except Unencodable:
+        raise
+    except Exception as ex:
+        return "EXC:" + type(ex).__name__
+
+
+def _err(s):
+    return "ERR" if isinstance(s, str) and s.startswith("EXC:") else s
+
+
+def x_msg_impl(spec):
+    """the real code on one message: (driver line, [observations])"""
+    from hippolyzer.lib.base import llsd
+    from hippolyzer.lib.base.message.message import Message
+    tb = _Tables()
+    m = x_message(spec)
+    m.ensure_parsed()
+    line_msg = msg_enc(m, tb)
+    d = m.to_dict(extended=True)
+    o_d = y_enc(d, tb)
+    nb = llsd.format_notation(d)
+    o_f = _try(lambda: msg_enc(Message.from_dict(d), tb))
+    o_p = _try(lambda: msg_enc(Message.from_dict(llsd.parse_notation(nb)), tb))
+    o_s = y_enc(m.to_dict(), tb)
+    return "XM " + line_msg + " " + tb.text(), [o_d, _hx(nb), _err(o_f), _err(o_p), o_s]
+
+
+X_FIELDS = ["to_dict(extended=True)", "format_notation", "from_dict(to_dict)", "from_dict(parse_notation(format_notation))", "to_dict()"]
+
+
+# ---- generators ------------------------------------------------------------
+
+X_STRS = ["", "a", "abc", "it's", 'q"\\', "line\nbreak", "héllo", "€", "tab\t", "\U0001f600", "x" * 70, "0", "None"]
+X_BYTES = [b"", b"\x00", b"abc", b"abc\x00", b"\xff\xfe", b"a'b\n", bytes(range(256)), b"\x00\x00", b"=", b"ab", b"abcd", b"abcde"]
+X_INTS = [0, 1, -1, 5, 255, 256, -128, 2 ** 31 - 1, -2 ** 31, 2 ** 31, 2 ** 32 - 1, 2 ** 63, -2 ** 63, 2 ** 64 - 1, 10 ** 30, -10 ** 30, 7, 10, 100]
+X_FLOATS = [0.0, -0.0, 1.0, -1.0, 1.5, 0.1, 1e300, -1e-300, 5e-324, 1.7976931348623157e308, float("inf"), float("-inf"), 128.25,
+            3.4028234663852886e38, 1e16, 123456789.125, 1e-7, 2.5e-5]
+X_KEYS = ["a", "Baz", "ID", "Name-x", "B_2", "with space", "", "q'k", "k\\", "é", "nl\nkey", "message", "body", "x" * 40]
+
+
+def x_float(rng):
+    import struct
+    r = rng.random()
+    if r < 0.6:
+        return rng.choice(X_FLOATS)
+    if r < 0.8:
+        return struct.unpack("<f", struct.pack("<f", rng.uniform(-1000, 1000)))[0]
+    return rng.uniform(-1e6, 1e6)
+
+
+def x_uuid_bytes(rng):
+    return rng.choice((bytes(16), bytes(range(16)), b"\xff" * 16, rng.getrandbits(128).to_bytes(16, "big")))
+
+
+def x_value(rng, depth=2, leaf_only=False):
+    """a Python value of every class a message variable / meta value can hold"""
+    import uuid
+    from hippolyzer.lib.base import datatypes as dt
+    r = rng.random()
+    if depth > 0 and not leaf_only and r < 0.22:
+        n = rng.choice((0, 1, 1, 2, 3, 5))
+        xs = [x_value(rng, depth - 1) for _ in range(n)]
+        return xs if rng.random() < 0.5 else tuple(xs)
+    if depth > 0 and not leaf_only and r < 0.3:
+        ks = rng.sample(X_KEYS, rng.choice((0, 1, 2, 3)))
+        return {k: x_value(rng, depth - 1) for k in ks}
+    k = rng.randrange(16)
+    if k == 0:
+        return None
+    if k == 1:
+        return rng.random() < 0.5
+    if k in (2, 3):
+        return rng.choice(X_INTS) if rng.random() < 0.7 else rng.getrandbits(rng.choice((8, 16, 32, 64))) - rng.choice((0, 0, 2 ** 15))
+    if k in (4, 5):
+        return x_float(rng)
+    if k in (6, 7):
+        return rng.choice(X_STRS)
+    if k == 8:
+        return rng.choice(X_BYTES) if rng.random() < 0.7 else bytes(rng.getrandbits(8) for _ in range(rng.randrange(0, 40)))
+    if k == 9:
+        return dt.JankStringyBytes(rng.choice(X_BYTES))
+    if k == 10:
+        return rng.choice((dt.RawBytes, bytearray))(rng.choice(X_BYTES))
+    if k in (11, 12):
+        return (dt.UUID if rng.random() < 0.7 else uuid.UUID)(bytes=x_uuid_bytes(rng))
+    if k == 13:
+        return dt.Vector3(x_float(rng), x_float(rng), x_float(rng))
+    if k == 14:
+        return rng.choice((dt.Vector2(x_float(rng), x_float(rng)), dt.Vector4(x_float(rng), x_float(rng), x_float(rng), x_float(rng))))
+    return dt.Quaternion(x_float(rng), x_float(rng), x_float(rng), x_float(rng))
+
+
+def x_hand_message(rng, empties=None):
+    """a hand-built Message: every value class, several blocks per list, present-but-empty block lists at the positions in
+    `empties` (subset of first / middle / last), meta, flags, extra (bytes or bytearray), acks (tuple or list)"""
+    from hippolyzer.lib.base.message.message import Block, Message
+    from hippolyzer.lib.base.network.transport import Direction
+    m = Message(rng.choice(NAMES + ["", "ObjectUpdate", "Näme"]))
+    bnames = rng.sample(BNAMES + ["ObjectData", "E1", "E2", "x y", ""], rng.choice((0, 1, 2, 3, 4)))
+    if empties is None:
+        empties = [p for p in ("first", "middle", "last") if rng.random() < 0.15]
+    plan = [(bn, rng.choice((1, 1, 2, 3))) for bn in bnames]
+    if "first" in empties:
+        plan.insert(0, ("Empty0", 0))
+    if "middle" in empties and len(plan) >= 2:
+        plan.insert(len(plan) // 2, ("EmptyM", 0))
+    if "last" in empties:
+        plan.append(("EmptyZ", 0))
+    for bn, n in plan:
+        m.create_block_list(bn)
+        for _ in range(n):
+            b = Block(bn)
+            for vn in rng.sample(VNAMES + X_KEYS, rng.choice((0, 1, 2, 3, 5))):
+                b.vars[vn] = x_value(rng)
+            if rng.random() < 0.02:
+                b.vars[rng.choice(("Tail_", "_", "a__"))] = 1     # not a keyword Block() can carry: from_dict raises, wf_msg is false
+            b.message_name = m.name
+            m.blocks[bn].append(b)
+    r = rng.random()
+    m.packet_id = None if r < 0.25 else rng.choice((0, 1, 2 ** 32 - 1, rng.getrandbits(32)))
+    m.synthetic = m.packet_id is None if rng.random() < 0.8 else rng.random() < 0.5
+    m.dropped = rng.random() < 0.3
+    m.direction = rng.choice((Direction.IN, Direction.OUT))
+    m.send_flags = rng.choice((0, 0x40, 0x80, 0x20, 0x10, 0xC0, 0xF0, 0x100))
+    for k in rng.sample(X_KEYS + ["AgentLocal", "ObjectID"], rng.choice((0, 0, 1, 2))):
+        m.meta[k] = x_value(rng, 1)
+    ex = rng.choice((b"", b"", b"\x01", b"abcd", bytes(rng.getrandbits(8) for _ in range(rng.randrange(1, 12)))))
+    m.raw_extra = bytearray(ex) if rng.random() < 0.4 else ex
+    m.offset = len(ex)
+    acks = [rng.choice((0, 1, 2 ** 32 - 1, rng.getrandbits(32))) for _ in range(rng.choice((0, 0, 1, 2, 5)))]
+    m.acks = acks if rng.random() < 0.3 else tuple(acks)
+    return m
+
+
+def gen_x_message_specs(ctx):
+    """yields (tag, spec)"""
+    rng = ctx.rng
+    for c in load_corpus():
+        if c.get("kind") == "export-model" and c.get("suite") == "msg":
+            yield "corpus", c["spec"]
+    n = 0
+    for w in gen_wire_specs(ctx):
+        n += 1
+        if n > ctx.pick(260, 3000):
+            break
+        yield "wire-" + w["tags"][0], {"wire": w["hex"], "lazy": w["lazy"]}
+    tb = _Tables()
+    for pos in (["first"], ["middle"], ["last"], ["first", "last"], ["first", "middle", "last"]):
+        for _ in range(ctx.pick(6, 40)):
+            try:
+                yield "hand-empty-" + "+".join(pos), {"msg": msg_enc(x_hand_message(rng, pos), tb)}
+            except Unencodable:
+                pass
+    for _ in range(ctx.pick(300, 6000)):
+        try:
+            yield "hand-random", {"msg": msg_enc(x_hand_message(rng), tb)}
+        except Unencodable:
+            pass
+
+
+def _x_case(suite, spec, field, model, impl):
+    return {"op": "export-model", "suite": suite, "spec": spec, "field": field, "model": model, "impl": impl}
+
+
+def correspond_x_messages(ctx):
+    res = CorrResult(suite="message dict / notation (model vs code)",
+                     rule="real Messages - (a) decoded by the real UDPMessageDeserializer (eager and lazy) from datagrams of the live "
+                          "template: a present-but-empty Variable block list at the first / middle / last / only position, one and "
+                          "several blocks, trailing blocks omitted, every variable type, all flag combinations, extra, acks; (b) hand-built: "
+                          "values of every Python class (None, bool, ints beyond 64 bits, floats incl. -0.0 / inf / subnormal, str with "
+                          "quotes / backslash / newline / non-ASCII, bytes, JankStringyBytes, RawBytes, bytearray, both UUID classes, "
+                          "Vector2/3/4, Quaternion, nested tuples / lists / dicts), empty block lists at every position, empty names, meta, "
+                          "bytearray extra, list acks - are encoded by exact type and given to the extracted model; compared exactly: the "
+                          "tree of to_dict(extended=True) and of to_dict(), the BYTES of llsd.format_notation(to_dict), the message "
+                          "Message.from_dict(to_dict) builds, the message Message.from_dict(parse_notation(format_notation(to_dict))) "
+                          "builds (every slot to_dict reads, value classes included).  non-trivial = at least one block list")
+    lines, want, specs = [], [], []
+    dist = {}
+    skipped = 0
+    for tag, spec in gen_x_message_specs(ctx):
+        try:
+            line, obs = x_msg_impl(spec)
+        except Unencodable:
+            skipped += 1
+            continue
+        except Exception as ex:
+            res.disagreements.append(_x_case("msg", spec, "raised", "no exception", "EXC:" + type(ex).__name__))
+            continue
+        lines.append(line)
+        want.append(obs)
+        specs.append((tag, spec))
+        dist[tag] = dist.get(tag, 0) + 1
+    outs = ctx.run_driver(lines) if lines else []
+    nt = 0
+    flags = {"wf_msg": 0, "plain_msg": 0, "wfn": 0}
+    for (tag, spec), obs, out in zip(specs, want, outs):
+        parts = out.split(" | ")
+        if len(parts) != 7:
+            res.disagreements.append(_x_case("msg", spec, "driver", out[:300], "-"))
+            continue
+        fl = parts[0]
+        for i, k in enumerate(("wf_msg", "plain_msg", "wfn")):
+            flags[k] += fl[i] == "1"
+        nt += 0 if obs[4].endswith(" M 0") else 1
+        for i in range(5):
+            if parts[1 + i] != obs[i]:
+                res.disagreements.append(_x_case("msg", spec, X_FIELDS[i], parts[1 + i][:2000], obs[i][:2000]))
+                break
+        else:
+            # the proved statement, on this instance: well-formed => the notation leg gives norm_msg
+            if fl[0] == "1" and fl[2] == "1" and parts[5] != "ERR" and parts[4] != parts[6]:
+                res.disagreements.append(_x_case("msg", spec, "norm_msg", parts[6][:2000], parts[4][:2000]))
+        if len(res.samples) < 3 and tag.startswith("hand"):
+            res.samples.append({"spec": spec, "model": out[:400]})
+    res.evaluations = len(lines)
+    res.distinct_nontrivial = nt
+    res.distribution = dict(dist, skipped_unencodable=skipped, **flags)
+    return res
+
+
+# ---- Message.from_dict on malformed dicts ------------------------------------
+
+X_REQ = ["message", "body"]
+X_EXT = ["packet_id", "meta", "dropped", "synthetic", "direction", "send_flags", "extra", "acks"]
+
+
+def x_mutate_dict(rng, d):
+    """one mutation of a to_dict(extended=True) result; returns (mutated dict, expectation): 'ok' = from_dict must accept and
+    build what the model builds, 'raises' = from_dict must raise and the model must refuse, 'outside' = Python accepts a
+    value the typed model cannot hold (not compared)"""
+    import copy
+    d = copy.deepcopy(d)
+    k = rng.randrange(14)
+    if k == 0:
+        key = rng.choice(X_REQ)
+        d.pop(key, None)
+        return d, "raises"
+    if k == 1:
+        key = rng.choice(X_EXT[1:])
+        d.pop(key, None)
+        return d, "raises"
+    if k == 2:
+        d.pop("packet_id", None)                # the short form: the other extended keys are ignored
+        return d, "ok"
+    if k == 3:
+        d["direction"] = rng.choice(("SIDEWAYS", "in", "", "Out"))
+        return d, "raises"
+    if k == 4:
+        d["body"] = rng.choice(([], None, 5, "x"))
+        return d, "raises"
+    if k == 5 and d["body"]:
+        bn = rng.choice(list(d["body"]))
+        d["body"][bn] = rng.choice((None, 5, True))
+        return d, "raises"
+    if k == 6 and d["body"]:
+        bn = rng.choice(list(d["body"]))
+        d["body"][bn] = list(d["body"][bn]) + [rng.choice((None, 5, [1], "ab"))]
+        return d, "raises"
+    if k == 7 and d["body"]:
+        bn = rng.choice(list(d["body"]))
+        d["body"][bn] = tuple(d["body"][bn])    # any iterable of dicts will do
+        return d, "ok"
+    if k == 8:
+        key, val = rng.choice((("dropped", 1), ("synthetic", None), ("packet_id", "7"), ("send_flags", True), ("extra", [1, 2]),
+                               ("extra", "ab"), ("acks", None), ("meta", None), ("message", 5), ("direction", 5)))
+        d[key] = val
+        return d, "outside" if key != "direction" else "raises"
+    if k == 9 and d["body"]:
+        bn = rng.choice(list(d["body"]))
+        if d["body"][bn]:
+            blk = dict(d["body"][bn][0])
+            blk[rng.choice(("Tail_", "fill_missing", "_"))] = 1
+            d["body"][bn] = [blk] + list(d["body"][bn][1:])
+            return d, "outside"
+    if k == 10:
+        d["body"] = dict(d["body"], **{"Added": [], "Added2": [{"V": 1}, {}]})
+        return d, "ok"
+    if k == 11:
+        d["acks"] = list(d.get("acks", ()))
+        d["extra"] = bytearray(d.get("extra", b""))
+        return d, "ok"
+    if k == 12:
+        d["unknown_key"] = 1
+        return d, "ok"
+    return d, "ok"
+
+
+def correspond_x_from_dict(ctx):
+    from hippolyzer.lib.base.message.message import Message
+    res = CorrResult(suite="Message.from_dict on valid and malformed dicts (model vs code)",
+                     rule="to_dict(extended=True) of generated messages, mutated once: a required or an extended key removed, the "
+                          "short form, an unknown direction, body / block list / block of the wrong shape, tuple for list, extra keys, "
+                          "added empty and multi-block lists, values the typed model cannot hold (left out, counted under 'outside'); "
+                          "expected: the model builds exactly the message the code builds, and refuses exactly when the code raises. "
+                          "non-trivial = a mutated dict")
+    rng = ctx.rng
+    lines, want, specs = [], [], []
+    dist = {"ok": 0, "raises": 0, "outside": 0}
+    for _ in range(ctx.pick(500, 8000)):
+        tb = _Tables()
+        try:
+            m = x_hand_message(rng)
+            try:
+                d0 = m.to_dict(extended=True)
+            except Exception as ex:
+                res.disagreements.append(_x_case("from_dict", {"dict": "N"}, "raised", "no exception", "EXC:" + type(ex).__name__))
+                break
+            d, exp = x_mutate_dict(rng, d0)
+            enc = y_enc(d, tb)
+            names = [k for bl in d.get("body", {}).values() if isinstance(bl, (list, tuple)) for b in bl if isinstance(b, dict) for k in b] \
+                if isinstance(d.get("body"), dict) else []
+            if exp == "ok" and any(isinstance(k, str) and k.endswith("_") for k in names):
+                exp = "raises"          # finalize() sends 'Name_' through a subfield serializer that does not exist: KeyError
+        except Unencodable:
+            continue
+        dist[exp] += 1
+        if exp == "outside":
+            continue
+        got = _err(_try(lambda: msg_enc(Message.from_dict(d), tb)))
+        if (got == "ERR") != (exp == "raises"):
+            res.disagreements.append(_x_case("from_dict", {"dict": enc}, "expectation:" + exp, "-", got[:500]))
+            continue
+        lines.append("XD " + enc)
+        want.append(got)
+        specs.append({"dict": enc})
+    outs = ctx.run_driver(lines) if lines else []
+    for spec, w, o in zip(specs, want, outs):
+        if w != o:
+            res.disagreements.append(_x_case("from_dict", spec, "from_dict", o[:2000], w[:2000]))
+    res.evaluations = len(lines)
+    res.distinct_nontrivial = len(lines)
+    res.distribution = dist
+    res.samples = [{"dict": s["dict"][:300], "model": o[:300]} for s, o in list(zip(specs, outs))[:2]]
+    return res
+
+
+# ---- single values: the formatter's type dispatch and what comes back ----------
+
+def correspond_x_values(ctx):
+    from hippolyzer.lib.base import llsd
+    res = CorrResult(suite="Python value -> notation -> Python value (model vs code)",
+                     rule="generated values of every class nested to depth 3: the bytes of llsd.format_notation(v) against "
+                          "fmt_not(tree_of v), parse_notation of those bytes (classes included) against norm v, and `plain v` against "
+                          "'the value comes back with the same classes'.  non-trivial = a container or a non-plain class")
+    rng = ctx.rng
+    lines, want = [], []
+    nt = 0
+    for _ in range(ctx.pick(700, 12000)):
+        tb = _Tables()
+        v = x_value(rng, 3)
+        try:
+            e = y_enc(v, tb)
+            nb = llsd.format_notation(v)
+            back = y_enc(llsd.parse_notation(nb), tb)
+        except Unencodable:
+            continue
+        except Exception as ex:
+            res.disagreements.append(_x_case("value", {"value": e}, "raised", "-", type(ex).__name__))
+            continue
+        lines.append("XV " + e + " " + tb.text())
+        want.append(" | ".join([_hx(nb), back, "1" if back == e else "0"]))
+        nt += e[0] in "LMCG" or e.startswith("B j") or e.startswith("B r") or e.startswith("B a")
+    outs = ctx.run_driver(lines) if lines else []
+    for l, w, o in zip(lines, want, outs):
+        if w != o:
+            res.disagreements.append(_x_case("value", {"value": l[3:].split(" ;")[0]}, "value", o[:1500], w[:1500]))
+    res.evaluations = len(lines)
+    res.distinct_nontrivial = nt
+    res.samples = [{"line": l[:200], "model": o[:200]} for l, o in list(zip(lines, outs))[:2]]
+    return res
+
+
+# ---- entries: to_dict / from_dict / export_log_entries / import_log_entries -----
+
+X_META_KEYS = ["RegionName", "AgentID", "SessionID", "AgentLocal", "Method", "Type", "SelectedLocal", "SelectedFull"]
+
+
+def entry_enc(e, tb):
+    """typed encoding of a real LLUDP / EQ entry (the fields that survive without region and session) + the summary oracle"""
+    from hippolyzer.lib.base import llsd
+    from hippolyzer.lib.proxy import message_logger as ml
+    out = []
+    for v in (e._region_name, e._agent_id, e._summary):
+        out.append("-" if v is None else y_enc(v, tb)[:1] + " " + y_enc(v, tb).split(" ")[-1])
+    if e._region_name is not None and type(e._region_name) is not str:
+        raise Unencodable("region name")
+    if e._summary is not None and type(e._summary) is not str:
+        raise Unencodable("summary")
+    if e._agent_id is not None and not y_enc(e._agent_id, tb).startswith("G "):
+        raise Unencodable("agent id")
+    out.append(y_enc(e.meta, tb))
+    if type(e) is ml.LLUDPMessageLogEntry:
+        msg = e.message
+        out.append("U " + msg_enc(msg, tb))
+        su = msg.to_summary()[:500]
+    elif type(e) is ml.EQMessageLogEntry:
+        out.append("E " + y_enc(e.event, tb))
+        su = llsd.format_notation(e.event["body"]).decode("utf8")[:500]
+    else:
+        raise Unencodable("entry class")
+    return " ".join(out), su
+
+
+def entry_model_enc(e, tb):
+    """the driver's printing of an lentry (no summary oracle)"""
+    return entry_enc(e, tb)[0]
+
+
+def x_entry(rng, payload):
+    """a real entry around a Message or an event, with the fields a live region / session would have given it"""
+    from hippolyzer.lib.base.datatypes import UUID
+    from hippolyzer.lib.base.message.message import Message
+    from hippolyzer.lib.proxy import message_logger as ml
+    if isinstance(payload, Message):
+        e = ml.LLUDPMessageLogEntry(payload, None, None)
+    else:
+        e = ml.EQMessageLogEntry(payload, None, None)
+    if rng.random() < 0.7:
+        e._region_name = rng.choice(("Foo Region", "", "Région", "it's"))
+        e.meta["RegionName"] = e._region_name
+    if rng.random() < 0.7:
+        e._agent_id = UUID(bytes=x_uuid_bytes(rng))
+        e.meta["AgentID"] = e._agent_id
+    if rng.random() < 0.6:
+        e.meta["SessionID"] = UUID(bytes=x_uuid_bytes(rng))
+    if rng.random() < 0.5:
+        e.meta["AgentLocal"] = rng.choice((0, 1, 2 ** 32 - 1, rng.getrandbits(32)))
+    if rng.random() < 0.4:
+        e.meta["SelectedLocal"] = rng.getrandbits(32)
+        e.meta["SelectedFull"] = rng.choice((None, UUID(bytes=x_uuid_bytes(rng))))
+    if rng.random() < 0.2:
+        e._summary = rng.choice(("", "cached summary", "it's é"))
+    r = rng.random()
+    if r < 0.04:
+        del e.meta[rng.choice(("AgentID", "SelectedFull", "SessionID"))]        # KeyError in to_dict
+    elif r < 0.08:
+        e.meta["Extra"] = rng.choice((1, "x", None))                            # an added plain key survives
+    return e
+
+
+def x_event(rng):
+    body = x_value(rng, 2) if rng.random() < 0.3 else {k: x_value(rng, 2) for k in rng.sample(X_KEYS, rng.choice((0, 1, 2, 4)))}
+    return {"message": rng.choice(("EstablishAgentCommunication", "ParcelProperties", "X", "")), "body": body}
+
+
+def x_entry_from_spec(s):
+    """{"payload": {"wire"|"msg"|"event": ...}, "fields": typed dict encoding of the entry fields} -> real entry"""
+    from hippolyzer.lib.proxy import message_logger as ml
+    p = s["payload"]
+    e = ml.EQMessageLogEntry(y_dec(_Tok(p["event"])), None, None) if "event" in p else ml.LLUDPMessageLogEntry(x_message(p), None, None)
+    f = y_dec(_Tok(s["fields"]))
+    e._region_name, e._agent_id, e._summary = f["region_name"], f["agent_id"], f["summary"]
+    e.meta = f["meta"]
+    if s.get("frozen"):
+        e.freeze()              # export then works on the thawed snapshot (C18_frozen_export)
+    return e
+
+
+def x_entry_spec(e, payload_spec, tb):
+    return {"payload": payload_spec,
+            "fields": y_enc({"region_name": e._region_name, "agent_id": e._agent_id, "summary": e._summary, "meta": e.meta}, tb)}
+
+
+def x_entries_impl(specs):
+    """the real code on a list of entries: (driver line, per-entry observations [to_dict, from_dict(to_dict), imported])"""
+    from hippolyzer.lib.proxy import message_logger as ml
+    tb = _Tables()
+    entries = [x_entry_from_spec(s) for s in specs]
+    encs = []
+    for e in entries:
+        if type(e) is ml.LLUDPMessageLogEntry:
+            e.message.ensure_parsed()
+        enc, su = entry_enc(e, tb)
+        encs.append(enc + " " + _hx(su.encode("utf8")))
+    obs = []
+    for e in entries:
+        d = _try(lambda: e.to_dict())
+        if isinstance(d, str):
+            obs.append(["ERR", "ERR"])
+            continue
+        o_d = y_enc(d, tb)
+        o_i = _err(_try(lambda: entry_model_enc(type(e).from_dict(dict(d)), tb)))
+        obs.append([o_d, o_i])
+    imp = _try(lambda: ml.import_log_entries(ml.export_log_entries(entries)))
+    if isinstance(imp, str) or len(imp) != len(entries):
+        imported = ["ERR"] * len(entries)
+    else:
+        imported = [_err(_try(lambda x=x: entry_model_enc(x, tb))) for x in imp]
+    for o, i in zip(obs, imported):
+        o.append(i)
+    return "XE %d %s %s" % (len(encs), " ".join(encs), tb.text()), obs
+
+
+X_EFIELDS = ["entry.to_dict()", "cls.from_dict(entry.to_dict())", "import_log_entries(export_log_entries(entries))"]
+
+
+def gen_x_entry_lists(ctx):
+    rng = ctx.rng
+    for c in load_corpus():
+        if c.get("kind") == "export-model" and c.get("suite") == "entries":
+            yield c["spec"]
+    wires = []
+    for w in gen_wire_specs(ctx):
+        wires.append({"wire": w["hex"], "lazy": w["lazy"]})
+        if len(wires) >= ctx.pick(120, 1500):
+            break
+    tb = _Tables()
+    for _ in range(ctx.pick(220, 4000)):
+        n = rng.choice((1, 1, 1, 2, 3, 5, 0))
+        specs = []
+        for _ in range(n):
+            try:
+                r = rng.random()
+                if r < 0.35 and wires:
+                    ps = rng.choice(wires)
+                    payload = x_message(ps)
+                elif r < 0.75:
+                    payload = x_hand_message(rng)
+                    ps = {"msg": msg_enc(payload, tb)}
+                else:
+                    payload = x_event(rng)
+                    ps = {"event": y_enc(payload, tb)}
+                sp = x_entry_spec(x_entry(rng, payload), ps, tb)
+                if rng.random() < 0.4:
+                    sp["frozen"] = True
+                specs.append(sp)
+            except Unencodable:
+                continue
+        yield specs
+
+
+def correspond_x_entries(ctx):
+    res = CorrResult(suite="entry export / import (model vs code)",
+                     rule="lists of 0..5 real LLUDPMessageLogEntry / EQMessageLogEntry objects (wire-decoded and hand-built messages, "
+                          "generated events) with region name, agent id, session id, selected object, local ids and a cached summary "
+                          "set or unset, sometimes a missing meta key or an added one, 40% frozen before the export: per entry the dict entry.to_dict() returns "
+                          "(the notation bytes of the message inside it), the entry cls.from_dict builds from it, and the entry the "
+                          "real import_log_entries(export_log_entries(list)) returns (real repr / literal_eval / gzip) against "
+                          "norm_entry - all fields, value classes included.  non-trivial = a non-empty list")
+    lines, want, specs = [], [], []
+    skipped = 0
+    for sl in gen_x_entry_lists(ctx):
+        try:
+            line, obs = x_entries_impl(sl)
+        except Unencodable:
+            skipped += 1
+            continue
+        except Exception as ex:
+            res.disagreements.append(_x_case("entries", sl, "raised", "no exception", "EXC:" + type(ex).__name__))
+            continue
+        lines.append(line)
+        want.append(obs)
+        specs.append(sl)
+    outs = ctx.run_driver(lines) if lines else []
+    n_entries = ok = std = 0
+    for sl, obs, out in zip(specs, want, outs):
+        per = out.split(" || ") if out else []
+        if len(per) != len(obs):
+            res.disagreements.append(_x_case("entries", sl, "driver", out[:300], str(len(obs))))
+            continue
+        # export_log_entries raises as a whole when one entry's to_dict does (mapM in the model)
+        whole_fails = any("ERR" in o.split(" | ")[1:3] for o in per)
+        for o, w in zip(per, obs):
+            parts = o.split(" | ")
+            n_entries += 1
+            ok += parts[0][0] == "1"
+            std += parts[0][1] == "1"
+            bad = None
+            model = [parts[1], parts[2], "ERR" if whole_fails else parts[2]]
+            for i in range(3):
+                if model[i] != w[i]:
+                    bad = _x_case("entries", sl, X_EFIELDS[i], model[i][:2000], w[i][:2000])
+                    break
+            if bad is None and parts[0][0] == "1" and parts[2] != parts[3]:
+                bad = _x_case("entries", sl, "norm_entry", parts[3][:2000], parts[2][:2000])     # the proved statement, on this instance
+            if bad:
+                res.disagreements.append(bad)
+                break
+    res.evaluations = len(lines)
+    res.distinct_nontrivial = sum(1 for s in specs if s)
+    res.distribution = {"entries": n_entries, "entry_ok": ok, "std_meta": std, "skipped_unencodable": skipped,
+                        "frozen_before_export": sum(1 for sl in specs for x in sl if x.get("frozen"))}
+    try:
+        obs = measure_class_loss(ctx)
+        res.distribution["observed_on_live_code"] = obs
+        ctx.notes.append("export/import normal form on the live code (C18_dict_classes_lost_refuted): Message.__eq__ tells the imported "
+                         "message from the logged one for %d of %d wire-decoded messages; filters [logged, imported]: %s; a second "
+                         "freeze() keeps the message: %s (C18_freeze_twice_refuted / C18_freeze_idempotent; proposed repair "
+                         ".proposed/C18-freeze-twice.diff)" % (obs["message_eq_false_after_import"], obs["wire_messages"],
+                                                               obs["filters_logged_vs_imported"], obs["second_freeze_keeps_message"]))
+    except Exception:
+        pass
+    res.samples = [{"entries": len(s), "model": o[:300]} for s, o in list(zip(specs, outs))[:2]]
+    return res
+
+
+# ---- the freeze / thaw state machine ------------------------------------------
+
+def probe_repickle():
+    """does freeze() pickle the message it has just resolved (True) or self._message (False: a second freeze loses it)?"""
+    from hippolyzer.lib.base.message.message import Block, Message
+    from hippolyzer.lib.proxy import message_logger as ml
+    e = ml.LLUDPMessageLogEntry(Message("Probe", Block("B", V=1)), None, None)
+    try:
+        e.freeze()
+        e.freeze()
+        return e.message.name == "Probe"
+    except Exception:
+        return False
+
+
+def x_versions(rng):
+    """versions of ONE live message: the fields an addon or the proxy changes after logging"""
+    vs = [{"name": "Foo", "pid": 1, "dir": "OUT", "val": 1}]
+    for _ in range(rng.choice((1, 2, 3))):
+        v = dict(rng.choice(vs))
+        k = rng.choice(("name", "pid", "dir", "val"))
+        v[k] = {"name": rng.choice(("Foo", "Bar", "Baz")), "pid": rng.choice((None, 1, 2, 7)), "dir": rng.choice(("IN", "OUT")),
+                "val": rng.choice((1, 2, "s"))}[k]
+        if v not in vs:
+            vs.append(v)
+    return vs
+
+
+def x_apply_version(m, v):
+    from hippolyzer.lib.base.network.transport import Direction
+    m.name = v["name"]
+    m.packet_id = v["pid"]
+    m.direction = Direction[v["dir"]]
+    m["Bar"][0]["V"] = v["val"]
+
+
+def x_freeze_impl(spec):
+    """ops on a real entry around a live message; returns (driver line, observations)"""
+    from hippolyzer.lib.base.message.message import Block, Message
+    from hippolyzer.lib.proxy import message_logger as ml
+    tb = _Tables()
+    vs = spec["versions"]
+    encs = []
+    for v in vs:
+        t = Message("x", Block("Bar", V=0), packet_id=0)
+        x_apply_version(t, v)
+        encs.append(msg_enc(t, tb))
+    live = Message("x", Block("Bar", V=0), packet_id=0)
+    x_apply_version(live, vs[0])
+    e = ml.LLUDPMessageLogEntry(live, None, None)
+    obs = []
+    for op in spec["ops"]:
+        if op[0] == "m":
+            x_apply_version(live, vs[op[1]])
+            obs.append("-")
+        elif op[0] == "f":
+            r = _try(lambda: e.freeze())
+            obs.append("EXC" if isinstance(r, str) else "ok")
+        elif op[0] == "o":
+            r = _try(lambda: "%s %s %s" % (_hx(e.name.encode()), _hx(e.method.encode()), "-" if e.seq is None else e.seq))
+            obs.append("EXC" if r.startswith("EXC:") else r)
+        else:
+            r = _try(lambda: msg_enc(e.message, tb))
+            obs.append("EXC" if r.startswith("EXC:") else str(encs.index(r)) if r in encs else "?" + r[:80])
+    line = "XF %d %d %s %d %s" % (1 if spec["repickle"] else 0, len(encs), " ".join(encs), len(spec["ops"]),
+                                  " ".join("m %d" % o[1] if o[0] == "m" else o[0] for o in spec["ops"]))
+    return line, ";".join(obs)
+
+
+def gen_x_freeze_specs(ctx):
+    rng = ctx.rng
+    rp = probe_repickle()
+    for c in load_corpus():
+        if c.get("kind") == "export-model" and c.get("suite") == "freeze":
+            yield dict(c["spec"], repickle=rp)
+    # exhaustive short scripts over {mutate to v1, freeze, read properties, read message}, two versions
+    import itertools as it
+    two = [{"name": "Foo", "pid": 1, "dir": "OUT", "val": 1}, {"name": "Bar", "pid": 2, "dir": "IN", "val": 2}]
+    alpha = [["m", 1], ["m", 0], ["f"], ["o"], ["w"]]
+    for n in range(1, ctx.pick(5, 6)):
+        for ops in it.product(alpha, repeat=n):
+            if ["f"] in ops:
+                yield {"versions": two, "ops": [list(o) for o in ops] + [["o"], ["w"]], "repickle": rp}
+    for _ in range(ctx.pick(150, 3000)):
+        vs = x_versions(rng)
+        ops = []
+        for _ in range(rng.randrange(2, 12)):
+            r = rng.random()
+            ops.append(["m", rng.randrange(len(vs))] if r < 0.35 else ["f"] if r < 0.55 else ["o"] if r < 0.8 else ["w"])
+        yield {"versions": vs, "ops": ops, "repickle": rp}
+
+
+def correspond_x_freeze(ctx):
+    res = CorrResult(suite="freeze / thaw machine (model vs code)",
+                     rule="a real LLUDPMessageLogEntry around a live Message; scripts over {change name / packet id / direction / a "
+                          "variable of the LIVE message, freeze(), read name+method+seq, read .message}: all scripts up to length 4 "
+                          "(5 thorough) with a freeze over two versions, then random ones up to 11 steps over up to 4 versions; every "
+                          "step's observation (which version .message shows or that it raises; the three properties) against the model "
+                          "driven with the probed freeze variant.  non-trivial = the live message changes after a freeze or freeze twice")
+    lines, want, specs = [], [], []
+    nt = 0
+    for s in gen_x_freeze_specs(ctx):
+        try:
+            line, obs = x_freeze_impl(s)
+        except Exception as ex:
+            res.disagreements.append(_x_case("freeze", {k: v for k, v in s.items() if k != "repickle"}, "raised", "no exception",
+                                             "EXC:" + type(ex).__name__))
+            continue
+        lines.append(line)
+        want.append(obs)
+        specs.append(s)
+        kinds = [o[0] for o in s["ops"]]
+        if kinds.count("f") >= 2 or ("f" in kinds and "m" in kinds[kinds.index("f"):]):
+            nt += 1
+    outs = ctx.run_driver(lines) if lines else []
+    for s, w, o in zip(specs, want, outs):
+        if w != o:
+            res.disagreements.append(_x_case("freeze", {k: v for k, v in s.items() if k != "repickle"}, "observations", o, w))
+    res.evaluations = len(lines)
+    res.distinct_nontrivial = nt
+    res.distribution = {"repickle_probed": bool(specs and specs[0]["repickle"])}
+    res.samples = [{"spec": s, "model": o} for s, o in list(zip(specs, outs))[:2]]
+    return res
+
+
+def measure_class_loss(ctx):
+    """What the proved normal form means on the live code (reported in the evidence, not a verdict): for wire-decoded messages,
+    how often Message.__eq__ tells the imported message from the logged one, and whether a filter does"""
+    from hippolyzer.lib.proxy import message_logger as ml
+    from hippolyzer.lib.proxy.message_filter import compile_filter
+    im = wire_impl()
+    n = ne = 0
+    for w in gen_wire_specs(ctx):
+        if n >= 60:
+            break
+        try:
+            msg = im.eager.deserialize(bytes.fromhex(w["hex"]))
+            e = ml.LLUDPMessageLogEntry(msg, None, None)
+            imp = ml.import_log_entries(ml.export_log_entries([e]))[0]
+            n += 1
+            ne += not (imp.message == e.message)
+        except Exception:
+            continue
+    filt = None
+    try:
+        from hippolyzer.lib.base.datatypes import Vector3, JankStringyBytes
+        from hippolyzer.lib.base.message.message import Block, Message
+        e = ml.LLUDPMessageLogEntry(Message("Foo", Block("Bar", V=Vector3(1, 2, 3), J=JankStringyBytes(b"abc\x00"))), None, None)
+        imp = ml.import_log_entries(ml.export_log_entries([e]))[0]
+        filt = {f: [bool(compile_filter(f).match(x, short_circuit=False)) for x in (e, imp)]
+                for f in ("Foo.Bar.V == (1.0, 2.0, 3.0)", "Foo.Bar.V < (2.0, 3.0, 4.0)", "Foo.Bar.J == 'abc'")}
+    except Exception:
+        pass
+    return {"wire_messages": n, "message_eq_false_after_import": ne, "filters_logged_vs_imported": filt,
+            "second_freeze_keeps_message": probe_repickle()}
+
+
+def x_replay(case, ctx=None):
+    """re-runs the real code on a stored export-model case and compares with the recorded model answer"""
+    suite, spec, field = case["suite"], case["spec"], case["field"]
+    if field == "raised":
+        try:
+            if suite == "msg":
+                x_msg_impl(spec)
+            elif suite == "entries":
+                x_entries_impl(spec)
+            elif suite == "freeze":
+                x_freeze_impl(dict(spec, repickle=probe_repickle()))
+            else:
+                return True, case.get("impl")
+            return False, "holds"
+        except Unencodable:
+            return False, "holds"
+        except Exception as ex:
+            return True, "EXC:" + type(ex).__name__
+    try:
+        if suite == "msg":
+            _, obs = x_msg_impl(spec)
+            i = X_FIELDS.index(field) if field in X_FIELDS else 3
+            got = obs[i]
+        elif suite == "from_dict":
+            from hippolyzer.lib.base.message.message import Message
+            tb = _Tables()
+            d = y_dec(_Tok(spec["dict"]))
+            got = _err(_try(lambda: msg_enc(Message.from_dict(d), tb)))
+            if field.startswith("expectation:"):
+                return ((got == "ERR") != (field == "expectation:raises")), got[:500]
+        elif suite == "value":
+            from hippolyzer.lib.base import llsd
+            tb = _Tables()
+            v = y_dec(_Tok(spec["value"]))
+            e = y_enc(v, tb)
+            nb = llsd.format_notation(v)
+            back = y_enc(llsd.parse_notation(nb), tb)
+            got = " | ".join([_hx(nb), back, "1" if back == e else "0"])
+        elif suite == "entries":
+            _, obs = x_entries_impl(spec)
+            i = X_EFIELDS.index(field) if field in X_EFIELDS else 2
+            got = None
+            for w in obs:
+                if w[i][:2000] == case["impl"]:
+                    got = w[i]
+            if got is None:
+                return False, "holds"
+            return got[:2000] != case["model"], got[:500]
+        elif suite == "freeze":
+            _, got = x_freeze_impl(dict(spec, repickle=probe_repickle()))
+        else:
+            return False, "unknown suite"
+    except Unencodable as ex:
+        return True, "unencodable: %s" % ex
+    return got[:2000] != case["model"], got[:500]
+
+
+def _guarded(fn, ctx):
+    """a failure of the harness itself inside one model-vs-code suite is reported as that suite's disagreement and does not hide
+    what the other suites found"""
+    try:
+        return fn(ctx)
+    except Exception:
+        import traceback
+        return CorrResult(suite=fn.__name__ + " (harness failure)", evaluations=0, distinct_nontrivial=0,
+                          disagreements=[{"op": "harness-failure", "suite": fn.__name__, "trace": traceback.format_exc()[-1200:]}],
+                          rule="the suite raised before it could compare anything")
+
+
 def correspond(ctx):
-    return [correspond_filters(ctx), correspond_syntax(ctx), correspond_logger(ctx), correspond_roundtrip(ctx)]
+    return [correspond_filters(ctx), correspond_syntax(ctx), correspond_logger(ctx), correspond_roundtrip(ctx),
+            _guarded(correspond_x_messages, ctx), _guarded(correspond_x_from_dict, ctx), _guarded(correspond_x_values, ctx),
+            _guarded(correspond_x_entries, ctx), _guarded(correspond_x_freeze, ctx)]
 
 
 # --------------------------------------------------------------------------
@@ -2056,6 +3144,9 @@ def check_case(case, skip=()):
     if k == "syntax-print":
         t = print_expr(case["ast"], None)
         return dict(case, got=t) if t != case["model"] else None
+    if k == "export-model":
+        fails, got = x_replay(case)
+        return dict(case, got=got) if fails else None
     return None
 
 
@@ -2117,6 +3208,9 @@ def search(ctx, hints):
                 return shrink_logger(v)
         if d.get("op") in ("syntax", "syntax-print"):
             return syntax_case(d)
+        if d.get("op") == "export-model":
+            return dict(d, kind="export-model", **{"class": "export-model-mismatch-" + d["suite"]},
+                        clause="the code computes what its model (Log/Export.v) computes: " + d["field"], got=d["impl"])
         if d.get("op") == "parse":
             return {"kind": "filter", "ast": d["ast"], "entry": EXH_ENTRY, "class": "parse-tree-mismatch",
                     "clause": "the printed filter compiles to the tree it denotes", "filter": d["filter"], "got": str(d["problem"])[:300]}
